@@ -203,15 +203,36 @@ pub fn install_panic_hook() {
             "<non-string panic>".to_string()
         };
         let loc = info.location().map(|l| format!("{}:{}", l.file(), l.line())).unwrap_or_default();
+        if msg.contains("unsafe precondition") {
+            // non-unwinding panic: the process is about to abort; leave the witness on stderr
+            eprintln!("ABORTING-PANIC: {} @ {}", msg, loc);
+        }
         LAST_PANIC.with(|p| *p.borrow_mut() = Some(format!("{} @ {}", msg, loc)));
     }));
+}
+
+/// Top-level variant: never escalates.
+pub fn catches_top<R>(f: impl FnOnce() -> R) -> Result<R, String> {
+    match panic::catch_unwind(AssertUnwindSafe(f)) {
+        Ok(r) => Ok(r),
+        Err(_) => Err(LAST_PANIC.with(|p| p.borrow_mut().take()).unwrap_or_else(|| "<panic>".into())),
+    }
 }
 
 /// Run `f`; Ok(result) or Err(panic message with location).
 pub fn catches<R>(f: impl FnOnce() -> R) -> Result<R, String> {
     match panic::catch_unwind(AssertUnwindSafe(f)) {
         Ok(r) => Ok(r),
-        Err(_) => Err(LAST_PANIC.with(|p| p.borrow_mut().take()).unwrap_or_else(|| "<panic>".into())),
+        Err(_) => {
+            let m = LAST_PANIC.with(|p| p.borrow_mut().take()).unwrap_or_else(|| "<panic>".into());
+            // harness-raised errors are tagged; they are never evidence about toodee. (Locations cannot
+            // be used to tell harness panics apart: `Index::index` is #[track_caller], so panics inside
+            // toodee's Index impls - including arithmetic overflow - are reported at the harness line.)
+            if m.starts_with("harness:") {
+                panic!("{}", m.rsplit_once(" @ ").map(|x| x.0).unwrap_or(&m));
+            }
+            Err(m)
+        }
     }
 }
 
